@@ -736,6 +736,100 @@ fn ordered_shape_ok(d: &StructD, db: &[Col], excess_allowed: bool) -> bool {
     excess_allowed || i == db.len()
 }
 
+/// every struct in `d` (the struct itself and all flattened ones) has the same `skip_name_checks` setting
+fn uniform_snc(d: &StructD) -> bool {
+    fn all_eq(d: &StructD, v: bool) -> bool {
+        d.snc == v && d.fields.iter().all(|f| f.flatten.as_ref().is_none_or(|i| all_eq(i, v)))
+    }
+    all_eq(d, d.snc)
+}
+
+/// The documented rule of the ordered flavor, from the declared DATABASE names (after `rename`) alone: walk the
+/// non-skipped leaf fields in declared order against the column list; a field takes the next column when the names
+/// agree (`skip_name_checks`: always, binding is positional); a UDT field with `allow_missing` may be passed over;
+/// anything else is a rejection; columns left over are excess (UDTs without `forbid_excess_udt_fields` only).
+/// Returns, per leaf (skipped ones: `None`), the index of the column it is bound to — or `None` = must be rejected.
+fn ordered_binding(d: &StructD, db: &[Col]) -> Option<Vec<Option<usize>>> {
+    let is_value = d.kind == "value";
+    let mut i = 0;
+    let mut out = Vec::new();
+    for (f, skipped) in all_leaves(d) {
+        if skipped {
+            out.push(None);
+        } else if i < db.len() && (d.snc || db[i].name == f.col()) {
+            out.push(Some(i));
+            i += 1;
+        } else if is_value && f.allow_missing {
+            out.push(None);
+        } else {
+            return None;
+        }
+    }
+    if i < db.len() && !(is_value && !d.forbid) {
+        return None;
+    }
+    Some(out)
+}
+
+fn oracle_ser_ordered(d: &StructD, db: &[Col], vals: &[Leaf], res: &Result<Vec<Leaf>, String>, ctx: &mut Ctx) {
+    let lv = all_leaves(d);
+    let binding = ordered_binding(d, db);
+    let fits = |b: &Vec<Option<usize>>| {
+        b.iter().zip(lv.iter().zip(vals)).all(|(bi, ((f, _), v))| match bi {
+            Some(i) => v.is_none() || f.ty == db[*i].ty,
+            None => true,
+        })
+    };
+    let expect_ok = binding.as_ref().is_some_and(fits);
+    match res {
+        Ok(cells) => {
+            if !expect_ok {
+                ctx.fail("ordered serialization accepted a column list that is not the declared order / does not fit");
+                return;
+            }
+            let b = binding.unwrap();
+            let expected: Vec<Leaf> = b.iter().zip(vals).filter(|(bi, _)| bi.is_some()).map(|(_, v)| v.clone()).collect();
+            if *cells != expected {
+                ctx.fail(format!("ordered serialization wrote {} but the bound fields' values in declared order are {}", toks(cells), toks(&expected)));
+            }
+        }
+        Err(k) => {
+            if expect_ok {
+                ctx.fail(format!("ordered serialization rejected ({}) the declared order under the database names", k));
+            }
+        }
+    }
+}
+
+/// expected outcome of ordered type check + deserialization (`None` = must be rejected)
+fn ordered_de_expected(d: &StructD, db: &[Col], cells: &[Leaf]) -> Option<Vec<Leaf>> {
+    let is_value = d.kind == "value";
+    let lv = all_leaves(d);
+    let b = ordered_binding(d, db)?;
+    if !is_value && cells.len() < db.len() {
+        return None;
+    }
+    let mut out = Vec::new();
+    for (bi, (f, _)) in b.iter().zip(&lv) {
+        match bi {
+            None => out.push(f.default()),
+            Some(i) => {
+                if db[*i].ty != f.ty {
+                    return None;
+                }
+                let cell = cells.get(*i).cloned().unwrap_or(None);
+                if let Some(bytes) = &cell {
+                    if f.ty == "int" && bytes.len() != 4 {
+                        return None;
+                    }
+                }
+                out.push(expected_field(f, &cell).ok()?);
+            }
+        }
+    }
+    Some(out)
+}
+
 fn oracle_ser(d: &StructD, db: &[Col], vals: &[Leaf], res: &Result<Vec<Leaf>, String>, ctx: &mut Ctx) {
     let lv = all_leaves(d);
     let active: Vec<(&FieldD, &Leaf)> = lv.iter().zip(vals).filter(|((_, s), _)| !s).map(|((f, _), v)| (f, v)).collect();
@@ -786,6 +880,10 @@ fn oracle_ser(d: &StructD, db: &[Col], vals: &[Leaf], res: &Result<Vec<Leaf>, St
     }
     if !d.by_name && !any_snc(d) && res.is_ok() && !ordered_shape_ok(d, db, is_value && !d.forbid) {
         ctx.fail("ordered flavor accepted a column list that is not in the declared order");
+    }
+    // ordered flavor: exact documented outcome from the declared database names
+    if !d.by_name && uniform_snc(d) {
+        oracle_ser_ordered(d, db, vals, res, ctx);
     }
 }
 
@@ -857,6 +955,11 @@ fn oracle_de(d: &StructD, db: &[Col], cells: &[Leaf], res: &Result<Vec<Leaf>, St
             Err(k) => format!("deserialization rejected ({}) what the attributes document as accepted", k),
         });
     }
+    if let (false, Err(k)) = (d.by_name, res) {
+        if ordered_de_expected(d, db, cells).is_some() {
+            ctx.fail(format!("ordered type check / deserialization rejected ({}) the declared order under the database names", k));
+        }
+    }
     let Ok(vals) = res else { return };
     if vals.len() != lv.len() {
         ctx.fail("wrong number of fields in the deserialized struct");
@@ -898,6 +1001,16 @@ fn oracle_de(d: &StructD, db: &[Col], cells: &[Leaf], res: &Result<Vec<Leaf>, St
         }
     } else if !d.snc && !ordered_shape_ok(d, db, is_value && !d.forbid) {
         ctx.fail("ordered flavor accepted a column list that is not in the declared order");
+    }
+    if !d.by_name {
+        // exact documented outcome from the declared database names (after `rename`)
+        if let Some(expected) = ordered_de_expected(d, db, cells) {
+            if *vals != expected {
+                ctx.fail(format!("ordered deserialization returned {} but the declared order binds {}", toks(vals), toks(&expected)));
+            }
+        } else {
+            ctx.fail("ordered deserialization accepted a column list / cells the declared order rejects");
+        }
     }
 }
 
@@ -1002,6 +1115,26 @@ pub fn run(case: &str, ctx: &mut Ctx) -> String {
             if let (Ok(cells), Some(de)) = (&res, info.de) {
                 let active: Vec<&FieldD> = lv.iter().filter(|(_, s)| !s).map(|(f, _)| f).collect();
                 let types_agree = db.iter().all(|c| active.iter().all(|f| f.col() != c.name || f.ty == c.ty));
+                if !d.by_name && uniform_snc(d) {
+                    // ordered flavor: what was written under the declared database names must type-check and come back
+                    if let Some(b) = ordered_binding(d, &db) {
+                        let types_eq = b.iter().zip(&lv).all(|(bi, (f, _))| bi.is_none_or(|i| db[i].ty == f.ty));
+                        if types_eq {
+                            match de(&db, Some(&encode_cells(cells))) {
+                                Ok(back) => {
+                                    for (((bi, (f, _)), v), got) in b.iter().zip(&lv).zip(&vals).zip(&back) {
+                                        let expected = if bi.is_some() { v.clone() } else { f.default() };
+                                        if *got != expected {
+                                            ctx.fail(format!("ordered round trip changed field {}: {} -> {}", f.rust, tok(&expected), tok(got)));
+                                        }
+                                    }
+                                }
+                                Err(DeErr::TypeCheck(e)) => ctx.fail(format!("ordered round trip: type check rejected what serialization wrote under the declared names ({})", tc_err_kind(&d.kind, &e))),
+                                Err(DeErr::Deser(e)) => ctx.fail(format!("ordered round trip: deserialization failed ({})", de_err_kind(&d.kind, &e))),
+                            }
+                        }
+                    }
+                }
                 if d.by_name && nodup(&db) && types_agree {
                     match de(&db, Some(&encode_cells(cells))) {
                         Ok(back) => {
